@@ -985,7 +985,7 @@ func ruleNoRegress(r *Run, rule string) {
 		if !ok {
 			continue
 		}
-		paths = OwnOnly(paths) // each function is judged on its own assignments; helpers are in the table above or judged themselves
+		paths = fl.OwnOnly(paths) // each function is judged on its own assignments (private helpers included); shared helpers are in the table above or judged themselves
 		type res struct {
 			bad string
 			pos token.Pos
@@ -994,6 +994,9 @@ func ruleNoRegress(r *Run, rule string) {
 		for i := range paths {
 			p := &paths[i]
 			for j, e := range p.Ev {
+				if e.From != "" && exempt[e.From] != "" {
+					continue // written in an exempted helper (judged by its own who-may-call rule), spliced in here
+				}
 				for _, ow := range owners {
 					v, ok := StatusAssign(fl.Info, e, ow)
 					if !ok || (v != "workflow.Running" && v != "workflow.NotStarted") {
@@ -1507,7 +1510,7 @@ func ruleFixPrologue(r *Run, rule, key string) {
 	if !ok {
 		return
 	}
-	paths = OwnOnly(paths)
+	paths = OwnOnly(paths) // the guard is a matter of the function's own first statements
 	bad := ""
 	guarded := 0
 	for i := range paths {
